@@ -276,6 +276,13 @@ class Stdlib:
                     return I.call_repo(m, [key], {}, self_obj=cont)
         if isinstance(cont, ConcreteIter):
             return cont.items[key]
+        if isinstance(cont, NP.MaskedArray) and (is_intlike(untag(key)) if 'is_intlike' in globals() else True):
+            k = untag(key)
+            n = mk_int(cont.count)
+            bad = Or(ops_cmp('<', k, ops_binop('-', 0, n)), ops_cmp('>=', k, n))
+            if bad is True or (bad is not False and cur().decide(zbool(bad), raise_split=True)):
+                raise PyRaise('IndexError', 'index out of bounds of the selected entries')
+            return cont.item(k, self)[0]
         raise Unsupported(f'getitem on {type(cont).__name__}', node)
 
     def key_eq(self, a, b):
